@@ -482,4 +482,212 @@ theorem urlEscape_str (plus : Bool) (s : Str) (hs : s.all isScalar = true) :
       simp [urlEscape, quotePlus, sbContains, c1, c2, quote, toBytes, utf8Encode, hs, -List.contains_eq_mem]
 
 
+section QS
+open Spec (qp qpByte encodeQs joinWith)
+/-! ### query strings -/
+
+theorem qpByte_chars (b : Nat) (hb : b < 256) : ∀ x ∈ qpByte b, x < 128 ∧ x ≠ 38 ∧ x ≠ 61 := by
+  unfold qpByte
+  intro x hx
+  split at hx
+  · simp at hx; omega
+  · split at hx
+    · rename_i h; simp at hx; subst hx; have := alwaysSafe_facts x h; omega
+    · have h1 := hexDigitU_facts (b / 16) (by omega)
+      have h2 := hexDigitU_facts (b % 16) (by omega)
+      have g1 : ∀ n, n < 16 → hexDigitU n ≠ 38 ∧ hexDigitU n ≠ 61 := by decide
+      have g11 := g1 (b / 16) (by omega)
+      have g12 := g1 (b % 16) (by omega)
+      simp at hx
+      rcases hx with rfl | rfl | rfl <;> omega
+
+theorem qp_chars (bs : Bytes) (hb : bs.all (· < 256) = true) : ∀ x ∈ qp bs, x < 128 ∧ x ≠ 38 ∧ x ≠ 61 := by
+  intro x hx
+  simp only [qp, List.mem_flatMap] at hx
+  obtain ⟨b, hbm, hx⟩ := hx
+  exact qpByte_chars b (by simpa using List.all_eq_true.mp hb b hbm) x hx
+
+theorem replace_qpByte (b : Nat) (hb : b < 256) : replaceC 43 [32] (qpByte b) = quoteByte [32] b := by
+  unfold qpByte quoteByte
+  by_cases h32 : b = 32
+  · subst h32; simp [replaceC, alwaysSafe, isAlnum]
+  · simp only [h32, if_false]
+    by_cases hs : alwaysSafe b = true
+    · have := alwaysSafe_facts b hs
+      simp [hs, replaceC]; omega
+    · have h1 := hexDigitU_facts (b / 16) (by omega)
+      have h2 := hexDigitU_facts (b % 16) (by omega)
+      simp only [hs, Bool.false_eq_true, if_false, Bool.false_or]
+      have : ([32] : List Nat).contains b = false := by simp; omega
+      simp only [this, Bool.false_eq_true, if_false]
+      apply replaceC_id
+      intro x hx; simp at hx; rcases hx with rfl | rfl | rfl <;> omega
+
+theorem replace_qp (bs : Bytes) (hb : bs.all (· < 256) = true) : replaceC 43 [32] (qp bs) = quoteFromBytes [32] bs := by
+  induction bs with
+  | nil => rfl
+  | cons b bs ih =>
+    simp only [List.all_cons, Bool.and_eq_true, decide_eq_true_eq] at hb
+    simp only [qp, quoteFromBytes, List.flatMap_cons, replaceC_append] at ih ⊢
+    rw [replace_qpByte b hb.1, ih (by simpa using hb.2)]
+
+theorem unquoteStr_id_ascii (s : Str) (h : ∀ x ∈ s, x < 128) : unquoteStr (fun b => b) s = unq s := by
+  unfold unquoteStr
+  split
+  · rename_i hc
+    have : ∀ x ∈ s, x ≠ 37 := by
+      intro x hx hx37; subst hx37; simp at hc; exact hc hx
+    rw [unq_no_pct s this]
+  · simpa using unqRuns_ascii (fun b => b) [] s h
+
+/-- decoding one form-encoded component gives the bytes back -/
+theorem unquoteLatin1Plus_qp (bs : Bytes) (hb : bs.all (· < 256) = true) : unquoteLatin1Plus (qp bs) = bs := by
+  unfold unquoteLatin1Plus
+  rw [unquoteStr_id_ascii, replace_qp bs hb, unq_quoteFromBytes _ goodSafe_space bs hb]
+  rw [replace_qp bs hb]
+  intro x hx
+  exact (quoteFromBytes_chars _ goodSafe_space bs hb x hx).1
+
+theorem split1_append (sep : Nat) (a b : Str) (h : ∀ x ∈ a, x ≠ sep) : split1 sep (a ++ sep :: b) = some (a, b) := by
+  induction a with
+  | nil => simp [split1]
+  | cons x a ih =>
+    have hx := h x (by simp)
+    simp only [List.cons_append, split1, hx, if_false, ih (fun y hy => h y (by simp [hy]))]
+
+theorem splitOnC_noSep (sep : Nat) (a : Str) (h : ∀ x ∈ a, x ≠ sep) : splitOnC sep a = [a] := by
+  induction a with
+  | nil => rfl
+  | cons x a ih =>
+    have hx := h x (by simp)
+    simp only [splitOnC, hx, if_false, ih (fun y hy => h y (by simp [hy]))]
+
+theorem splitOnC_append (sep : Nat) (a b : Str) (h : ∀ x ∈ a, x ≠ sep) :
+    splitOnC sep (a ++ sep :: b) = a :: splitOnC sep b := by
+  induction a with
+  | nil => simp [splitOnC]
+  | cons x a ih =>
+    have hx := h x (by simp)
+    simp only [List.cons_append, splitOnC, hx, if_false, ih (fun y hy => h y (by simp [hy]))]
+
+theorem splitOnC_joinWith (sep : Nat) (items : List Str) (hne : items ≠ [])
+    (h : ∀ it ∈ items, ∀ x ∈ it, x ≠ sep) : splitOnC sep (joinWith [sep] items) = items := by
+  induction items with
+  | nil => exact absurd rfl hne
+  | cons it rest ih =>
+    cases rest with
+    | nil => simp only [joinWith]; exact splitOnC_noSep sep it (h it (by simp))
+    | cons it2 rest2 =>
+      simp only [joinWith, List.append_assoc, List.singleton_append]
+      rw [splitOnC_append sep it _ (h it (by simp)), ih (by simp) (fun i hi => h i (by simp [hi]))]
+
+/-- a pair list of byte strings -/
+def BytePairs (pairs : List (Bytes × Bytes)) : Prop :=
+  ∀ p ∈ pairs, p.1.all (· < 256) = true ∧ p.2.all (· < 256) = true
+
+def encItem (p : Bytes × Bytes) : Str := qp p.1 ++ [61] ++ qp p.2
+
+theorem encItem_noAmp (p : Bytes × Bytes) (h1 : p.1.all (· < 256) = true) (h2 : p.2.all (· < 256) = true) :
+    ∀ x ∈ encItem p, x ≠ 38 := by
+  intro x hx
+  simp only [encItem, List.mem_append, List.mem_cons, List.mem_nil_iff, or_false] at hx
+  rcases hx with (hx | hx) | hx
+  · exact (qp_chars _ h1 x hx).2.1
+  · omega
+  · exact (qp_chars _ h2 x hx).2.1
+
+theorem parseItem_encItem (keep : Bool) (p : Bytes × Bytes) (h1 : p.1.all (· < 256) = true)
+    (h2 : p.2.all (· < 256) = true) :
+    parseItem keep false (encItem p) = .ok (if !p.2.isEmpty || keep then some p else none) := by
+  have hsplit : split1 61 (encItem p) = some (qp p.1, qp p.2) := by
+    simp only [encItem, List.append_assoc, List.singleton_append]
+    exact split1_append 61 _ _ (fun x hx => (qp_chars _ h1 x hx).2.2)
+  have hne : (encItem p).isEmpty = false := by simp [encItem]
+  have hv : (qp p.2).isEmpty = p.2.isEmpty := by
+    cases hp : p.2 with
+    | nil => rfl
+    | cons b bs =>
+      simp only [qp, List.flatMap_cons, List.isEmpty_cons]
+      unfold qpByte; (repeat' split) <;> rfl
+  unfold parseItem
+  simp only [hne, Bool.false_and, Bool.false_eq_true, if_false, hsplit, hv]
+  split
+  · simp [unquoteLatin1Plus_qp _ h1, unquoteLatin1Plus_qp _ h2]
+  · rfl
+
+theorem parseItems_map (keep : Bool) (pairs : List (Bytes × Bytes)) (h : BytePairs pairs) :
+    parseItems keep false (pairs.map encItem) = .ok (pairs.filter (fun p => !p.2.isEmpty || keep)) := by
+  induction pairs with
+  | nil => rfl
+  | cons p rest ih =>
+    have hp := h p (by simp)
+    have ih' := ih (fun q hq => h q (by simp [hq]))
+    simp only [List.map_cons, parseItems, parseItem_encItem keep p hp.1 hp.2, ih', List.filter_cons]
+    by_cases hc : (!p.2.isEmpty || keep) = true
+    · simp only [hc, if_true]
+    · simp [hc]
+
+theorem encodeQs_eq (pairs : List (Bytes × Bytes)) : encodeQs pairs = joinWith [38] (pairs.map encItem) := rfl
+
+theorem parseQsl_encodeQs (keep : Bool) (pairs : List (Bytes × Bytes)) (h : BytePairs pairs) :
+    parseQsl keep false (encodeQs pairs) = .ok (pairs.filter (fun p => !p.2.isEmpty || keep)) := by
+  cases pairs with
+  | nil => rfl
+  | cons p rest =>
+    have hne : (encodeQs (p :: rest)).isEmpty = false := by
+      rw [encodeQs_eq]
+      cases rest with
+      | nil => simp [joinWith, encItem]
+      | cons q r => simp [joinWith, encItem]
+    unfold parseQsl
+    simp only [hne, Bool.false_eq_true, if_false]
+    rw [encodeQs_eq, splitOnC_joinWith 38 _ (by simp)]
+    · exact parseItems_map keep (p :: rest) h
+    · intro it hit
+      simp only [List.mem_map] at hit
+      obtain ⟨q, hq, rfl⟩ := hit
+      exact encItem_noAmp q (h q hq).1 (h q hq).2
+
+theorem dictAppend_vals (P : Str → Prop) (k v : Str) (hv : P v) (d : List (Str × List Str))
+    (hd : ∀ kv ∈ d, ∀ x ∈ kv.2, P x) : ∀ kv ∈ dictAppend k v d, ∀ x ∈ kv.2, P x := by
+  induction d with
+  | nil => intro kv hkv x hx; simp [dictAppend] at hkv; subst hkv; simp at hx; subst hx; exact hv
+  | cons e rest ih =>
+    obtain ⟨k', vs⟩ := e
+    intro kv hkv x hx
+    simp only [dictAppend] at hkv
+    split at hkv
+    · simp only [List.mem_cons] at hkv
+      rcases hkv with rfl | hkv
+      · simp only [List.mem_append, List.mem_cons, List.mem_nil_iff, or_false] at hx
+        rcases hx with hx | rfl
+        · exact hd (k', vs) (by simp) x hx
+        · exact hv
+      · exact hd kv (by simp [hkv]) x hx
+    · simp only [List.mem_cons] at hkv
+      rcases hkv with rfl | hkv
+      · exact hd (k', vs) (by simp) x hx
+      · exact ih (fun kv' h' => hd kv' (by simp [h'])) kv hkv x hx
+
+theorem foldl_dictAppend_vals (P : Str → Prop) (ps : List (Str × Str)) (hp : ∀ p ∈ ps, P p.2)
+    (d : List (Str × List Str)) (hd : ∀ kv ∈ d, ∀ x ∈ kv.2, P x) :
+    ∀ kv ∈ ps.foldl (fun d p => dictAppend p.1 p.2 d) d, ∀ x ∈ kv.2, P x := by
+  induction ps generalizing d with
+  | nil => exact hd
+  | cons p rest ih =>
+    simp only [List.foldl_cons]
+    exact ih (fun q hq => hp q (by simp [hq])) _ (dictAppend_vals P p.1 p.2 (hp p (by simp)) d hd)
+
+theorem groupPairs_latin1 (ps : List (Bytes × Bytes)) (h : ∀ p ∈ ps, p.2.all (· < 256) = true) :
+    (groupPairs ps).all (fun kv => kv.2.all isLatin1) = true := by
+  have := foldl_dictAppend_vals (fun v => isLatin1 v = true) ps (by intro p hp; exact h p hp) [] (by simp)
+  rw [List.all_eq_true]
+  intro kv hkv
+  rw [List.all_eq_true]
+  intro x hx
+  exact this kv hkv x hx
+
+
+end QS
+
 end TornadoModel.C21
